@@ -591,8 +591,21 @@ class DataFrame:
     def groupby(self, by, sort=True):
         return GroupBy(self, by)
 
-    def value_counts(self):
-        raise ModelUnsupported("DataFrame.value_counts")
+    def value_counts(self, dropna=True):
+        """distinct rows with their multiplicity (descending count); only its length / counts are used by pyrepseq"""
+        rows = [tuple(self._cols[n][i] for n in self._names) for i in range(len(self))]
+        if dropna:
+            rows = [r for r in rows if not any(isna(v) for v in r)]
+        groups = []
+        for r in rows:
+            for g in groups:
+                if all(a == b for a, b in zip(g[0], r)):
+                    g[1] += 1
+                    break
+            else:
+                groups.append([r, 1])
+        groups.sort(key=lambda g: -g[1])
+        return Series([g[1] for g in groups], [g[0] for g in groups], "count")
 
     def equals(self, other):
         return (isinstance(other, DataFrame) and self._names == other._names and self._index == other._index
